@@ -194,7 +194,10 @@ def guarded(mon: str, fn: Callable[[], None]) -> None:
         with quiet():
             fn()
     except OracleError as exc:
-        LOG.skipped(mon, 'oracle-error:' + _short(str(exc), 120))
+        if str(exc) in ('too-large', 'non-real-dtype', 'dtype-unavailable'):
+            LOG.skipped(mon, 'out-of-domain:' + str(exc))
+        else:
+            LOG.skipped(mon, 'oracle-error:' + _short(str(exc), 120))
     except NonTermination:
         raise
     except Exception as exc:  # noqa: BLE001 - the oracle, not the code under test, failed
